@@ -27,7 +27,7 @@ def arc_points(rng):
 class C17(Property):
     id = "C17"
     lean_module = "RosuModel.Props.C17Full"   # imports Props/C17ArcEnd.lean (→ Props/C17Arc.lean, Props/C17Ends.lean, Props/C17.lean) and Props/C17ArcTol.lean; all in namespace Rosu.C17
-    theorem_modules = ['RosuModel.Props.C17ArcEnd', 'RosuModel.Props.C17ArcTol', 'RosuModel.Props.C17Bezier']   # files whose top-level theorems are all audited
+    theorem_modules = ['RosuModel.Props.C17ArcEnd', 'RosuModel.Props.C17ArcTol', 'RosuModel.Props.C17Bezier', 'RosuModel.Props.C17CatmullChord', 'RosuModel.Props.C17Catmull']   # files whose top-level theorems are all audited
     namespace = "Rosu.C17"
     design_ref = "5.17"
     level_text = (
@@ -57,8 +57,16 @@ class C17(Property):
         "other, and (arc_step_angle_bound) that sagitta is ≤ (n/(n−1))²·0.1 ≤ 0.4 for n emitted points, not ≤ 0.1: the code uses ⌈θ/divisor⌉ as the number of POINTS (arc_tolerance_naive_false: r = 100, θ = 4·arccos 0.999 "
         "gives 2 points and sagitta 0.3998; halfCircle_exceeds_tolerance); the |divisor| ≤ EPSILON branch (r ≥ 2^107/10 over ℝ) is excluded by hypothesis. This is a statement about exact real arithmetic; libm stays opaque, "
         "so the f32/f64 arc is only tested. "
-        "The other tolerance bounds (Hausdorff distance of the adaptive Bezier flattening with its smoothing step, "
-        "Catmull chord error) are NOT proved (bezier_within_tolerance_statement is only stated); the tolerances are tested: the real code's path is "
+        "CATMULL CHORD ERROR OVER THE REALS (Props/C17CatmullChord.lean, Props/C17Catmull.lean; sixth session): approximate_catmull_spans (every Scalar: the output is the concatenation of "
+        "catmullSubpath over the spans with the code's control-point choice catmullCtl), catmull_points_on_spline_real (the 100 points of a span are the exact cubic at c/50 and (c+1)/50), the interpolation identity "
+        "cubic_chord_error (q(t) - chord(t) = (t-a)(t-b)(c2 + c3(t+a+b))) with cubic_chord_error_le_second_deriv ((b-a)^2/8 * sup|q''|) and its sharpness, catmullM = the exact supremum of |q''| on [0,1] "
+        "(catmullAcc_le_M, catmullM_attained; q'' via HasDerivAt), catmullBound = catmullM / 20000, catmull_chord_within, catmull_chord_error_sharp (the bound is attained when the cubic coefficient vanishes), and the "
+        "headline catmull_within_bound_real: for every span and every t in [0,1] the exact curve point is within catmullSpanBound of a point of the emitted polyline on that span's chords, and every point of every "
+        "chord of the emitted polyline (degenerate chords and span joints included) is within the same bound of a point of the exact curve - both directions, Euclidean distance (the model's Pos.distance at the real "
+        "instance); non-vacuity on the square (0,0),(100,0),(100,100),(0,100): bound 0.0158 px. Not covered: the osu!-mode catmullSimplify applied afterwards (it removes vertices; oracle: +6 px threshold) and IEEE rounding of "
+        "the cubic's evaluation (bit-exact correspondence). "
+        "The remaining tolerance bound (Hausdorff distance of the adaptive Bezier flattening with its smoothing step) is NOT proved "
+        "(bezier_within_tolerance_statement is only stated); the tolerances are tested: the real code's path is "
         "compared with independently evaluated exact curves (De Casteljau, circle through three points, Catmull-Rom polynomial, polyline) "
         "in both directions with bounds derived from the constants 0.25 / 0.1 (arc: 0.4 for curve → path, the proved bound) / 50 steps, and the model is tied to the code bit-for-bit.")
     technique = "Lean 4 proof of the structural part and, over the reals, of the end-point and arc-tolerance clauses + bit-exact differential correspondence + independent exact-curve oracle (test)"
@@ -97,7 +105,10 @@ class C17(Property):
             "curve → path direction (and 0.1 + slack for vertex → circle). EXACT ARITHMETIC ONLY: libm sin / cos / acos / atan2 stay opaque in Lean 4.33, so nothing is proved about the f32/f64 arc (where the EPSILON branch "
             "is entered much earlier, as soon as 1 − 0.1/r rounds to 1 in f32) — that is tested by the oracle",
         "arc_points_on_circle / arc_first_vertex / arc_last_vertex / arc_circle_through_controls / arc_first_point / arc_last_point": "proved in exact arithmetic only, under explicit hypotheses (ExactArith; TrigLaws cos^2+sin^2=1; SqrtLaws; PolarLaws for arc_first_point; additionally PeriodLaws for arc_last_point) that are shown satisfiable on Rat (ExactArith, TrigLaws: rational unit-circle points) and all together on the reals; libm's sin/cos/atan2 and IEEE sqrt/f32/f64 are NOT proved to satisfy them - the float-level statement (vertices on the circle, first/last vertex at the control points, within float slack) is tested by the oracle",
-        "catmull chord error": "not proved; oracle bound max|B''|/(8*50^2) per span (+6 px in osu! mode, the simplification threshold)",
+        "catmull_within_bound_real (the Catmull chord error; formerly not proved)":
+            "now PROVED OVER THE REALS (Props/C17CatmullChord.lean, Props/C17Catmull.lean): both directions, Euclidean distance, bound catmullM/20000 with catmullM the exact supremum of the "
+            "span cubic's second derivative on [0,1] (sharp: catmull_chord_error_sharp). Exact real arithmetic only; not covered: the osu!-mode simplification pass applied afterwards (removes vertices; "
+            "oracle threshold +6 px) and the f32 evaluation of the cubic (bit-exact correspondence + the oracle's independent f64 evaluation)",
         "segment_starts_at_first / segment_ends_at_last_all": "Bezier/B-spline/linear/refused-arc: proved structurally for the whole segment through the adaptive subdivision (bezier_first_point), every arithmetic; Catmull and accepted arcs: exact arithmetic only (ExactArith, PolarLaws) - in f32 the cubic at t=0 is 0.5*(2*x) (exact unless 2*x overflows) and the arc start is centre + r*cos(atan2(..)) (rounded): tested (path[0] = first control point within slack)",
         "catmull_points_on_spline": "exact rational arithmetic only (Scalar instance on core Rat, ring); in f32 the polynomial is evaluated with rounding - covered by the bit-exact correspondence and the oracle's independent f64 evaluation",
         "thetaLoop_fuel": "the hypothesis (theta_end + 2pi >= theta_start) is a property of atan2 (range [-pi, pi]), not proved of libm; the driver reports fuel-exhausted distinctly and never did",
